@@ -5,6 +5,7 @@
 # implementation as data (wbprobe `surfaces`).
 import json
 import math
+import math
 import random
 
 from common import ml, fhex
@@ -56,6 +57,7 @@ class Elab:
         self.force = bool(wj.get("force surface temperature", False))
         self.gravity = float(wj.get("gravity model", {}).get("magnitude", 9.81))
         self.unsupported = None
+        self.uses_random = False
 
     # -- helpers -------------------------------------------------------------------------
     def tag_index(self, tag):
@@ -124,6 +126,10 @@ class Elab:
             comps = m["compositions"]
             fr = m.get("fractions", [1.0] * len(comps))
             return "CUniform (%s, %s, %s, %s, %s)" % (mn, mx, self.op(m), mlist([nlit(c) for c in comps]), mlist([ml(f) for f in fr]))
+        if m["model"] == "random":
+            self.uses_random = True
+            return "CRandom (%s, %s, %s, %s, %s, %s)" % (mn, mx, self.op(m), mlist([nlit(c) for c in m["compositions"]]),
+                                                       mlist([ml(x) for x in m.get("min value", [0.0])]), mlist([ml(x) for x in m.get("max value", [1.0])]))
         self.unsupported = "composition model " + m["model"]
         return "CUniform (%s, %s, OReplace, [], [])" % (mn, mx)
 
@@ -145,6 +151,17 @@ class Elab:
                 mn, mx, mlist([nlit(c) for c in m["compositions"]]),
                 mlist([mlist([ml(x) for x in mat]) for mat in mats]),
                 mlist([ml(s) for s in m["grain sizes"]]))
+        if m["model"] in ("random uniform distribution", "random uniform distribution deflected") and \
+                ("basis rotation matrices" in m or m["model"] == "random uniform distribution"):
+            self.uses_random = True
+            comps = m["compositions"]
+            defl = "None"
+            if m["model"].endswith("deflected"):
+                bs = [[x for row in mat for x in row] for mat in m["basis rotation matrices"]]
+                defl = "Some (%s, %s)" % (mlist([ml(x) for x in m["deflections"]]), mlist([mlist([ml(x) for x in b]) for b in bs]))
+            return "GRandom (%s, %s, %s, %s, %s, %s)" % (
+                mn, mx, mlist([nlit(c) for c in comps]), mlist([ml(x) for x in m["grain sizes"]]),
+                mlist(["true" if b else "false" for b in m["normalize grain sizes"]]), defl)
         self.unsupported = "grains model " + m["model"]
         return "GUniform (%s, %s, [], [], [])" % (mn, mx)
 
@@ -165,7 +182,7 @@ class Elab:
             "af_vel=" + mlist([self.vel_model(m, key + "/velocity models/%d" % i) for i, m in enumerate(f.get("velocity models", []))]),
             "af_tag=" + ml(float(ti)),
         ]
-        return "area_to_feature n g %s {%s}" % ("true" if self.spherical else "false", "; ".join(fields))
+        return "area_to_feature n g tape %s {%s}" % ("true" if self.spherical else "false", "; ".join(fields))
 
     def const_surf(self, v):
         return "{ds_const=true; ds_min=%s; ds_max=%s; ds_tris=[]; ds_nodes=[]}" % (ml(v), ml(v))
@@ -203,7 +220,7 @@ class Elab:
             "pl_vel=" + mlist([self.vel_model(m, key + "/velocity models/%d" % i) for i, m in enumerate(f.get("velocity models", []))]),
             "pl_tag=" + ml(float(ti)),
         ]
-        return "plume_to_feature n g %s {%s}" % ("true" if self.spherical else "false", "; ".join(fields))
+        return "plume_to_feature n g tape %s {%s}" % ("true" if self.spherical else "false", "; ".join(fields))
 
     def feature(self, f, idx):
         if f["model"] in ("continental plate", "oceanic plate", "mantle layer"):
@@ -228,7 +245,7 @@ class Elab:
         else:
             c = [((p[0] * (PI / 180.0)), (p[1] * (PI / 180.0))) for p in cs] if self.spherical else [(float(p[0]), float(p[1])) for p in cs]
             cross = "Some (%s, %s)" % (mpt(c[0]), mpt(c[1]))
-        return ("(let g = %s in {w_cs=%s; w_Tp=%s; w_Ts=%s; w_alpha=%s; w_cp=%s; w_force=%s; w_gravity=%s; w_cross=%s; w_features=%s})"
+        return ("(fun tape -> let g = %s in {w_cs=%s; w_Tp=%s; w_Ts=%s; w_alpha=%s; w_cp=%s; w_force=%s; w_gravity=%s; w_cross=%s; w_features=%s})"
                 % (self.globals_ml(), "Spherical" if self.spherical else "Cartesian", ml(self.Tp), ml(self.Ts), ml(self.alpha),
                    ml(self.cp), "true" if self.force else "false", ml(self.gravity), cross, mlist(feats)))
 
@@ -404,8 +421,50 @@ class Gen:
             m["max depth"] = self.num(dmax - 4e4, dmax + 2e4, 0)
         return m
 
+    def random_grains_model(self, dmin, dmax, ncomp=4, kinds=("random uniform distribution", "random uniform distribution deflected")):
+        r = self.r
+        k = r.randint(1, 2)
+        comps = r.sample(range(ncomp), k)
+        kind = r.choice(kinds)
+        m = {"model": kind, "compositions": comps,
+             "grain sizes": [r.choice([-1, self.num(0.01, 2, 3)]) for _ in comps],
+             "normalize grain sizes": [r.random() < 0.5 for _ in comps]}
+        if kind.endswith("deflected"):
+            m["deflections"] = [r.choice([1.0, 0.0, self.num(0, 1, 3)]) for _ in comps]
+            mats = []
+            for _ in comps:
+                a, b, c = [r.uniform(0, 2 * PI) for _ in range(3)]
+                ca, sa, cb, sb, cc, sc = math.cos(a), math.sin(a), math.cos(b), math.sin(b), math.cos(c), math.sin(c)
+                R = [[ca * cc - cb * sa * sc, -ca * sc - cb * cc * sa, sa * sb],
+                     [cc * sa + ca * cb * sc, ca * cb * cc - sa * sc, -ca * sb],
+                     [sb * sc, cc * sb, cb]]
+                mats.append([[round(x, 9) for x in row] for row in R])
+            m["basis rotation matrices"] = mats
+        if r.random() < 0.3:
+            m["max depth"] = self.num(dmax - 4e4, dmax + 2e4, 0)
+        return m
+
+    def random_comp_model(self, dmin, dmax, ncomp=4):
+        r = self.r
+        k = r.randint(1, 3)
+        comps = r.sample(range(ncomp), k)
+        m = {"model": "random", "compositions": comps}
+        u = r.random()
+        if u < 0.35:
+            # one (disjoint) interval per composition, so that the interval actually used is visible in the value
+            lo = [round(10.0 * j + self.num(0, 3, 2), 2) for j in range(len(comps))]
+            m["min value"] = lo
+            m["max value"] = [round(x + self.num(0.1, 3, 2), 2) for x in lo]
+        elif u < 0.7:
+            lo = self.num(0, 5, 2)
+            m["min value"] = [lo]
+            m["max value"] = [lo + self.num(0.1, 5, 2)]
+        if r.random() < 0.5:
+            m["operation"] = self.op(comp=True)
+        return m
+
     def area_feature(self, name, spherical=False, kinds=("continental plate", "oceanic plate", "mantle layer"),
-                     centre=None, size=None, temp_allow=("uniform", "linear", "adiabatic", "chapman")):
+                     centre=None, size=None, temp_allow=("uniform", "linear", "adiabatic", "chapman"), random_models=False):
         r = self.r
         kind = r.choice(kinds)
         if spherical:
@@ -433,6 +492,11 @@ class Gen:
             f["velocity models"] = [self.vel_model(dmin, dmax) for _ in range(r.choice([1, 1, 2]))]
         if r.random() < 0.6:
             f["grains models"] = [self.grains_model(dmin, dmax) for _ in range(r.choice([1, 1, 2]))]
+        if random_models:
+            if r.random() < 0.7:
+                f.setdefault("grains models", []).append(self.random_grains_model(dmin, dmax))
+            if kind == "continental plate" and r.random() < 0.7:
+                f["composition models"].append(self.random_comp_model(dmin, dmax))
         return f
 
     def plume(self, name, spherical=False, centre=None):
